@@ -826,6 +826,25 @@ func streamLease(t *testing.T, st *Stats) {
 			return
 		}
 	}
+	// one stream request with an acknowledgement and a zero deadline for another message: the zero deadline
+	// takes effect (the message comes again at once), on both paths
+	for _, grpc := range []bool{true, false} {
+		cs := c11Case{Name: fmt.Sprintf("lease-ack-and-zero-deadline-grpc=%v", grpc), Grpc: grpc, Actions: []c11Action{{K: "fc", Msgs: 3, Byts: 10000}, {K: "publish", Pads: []int{0, 0}}, {K: "ackdelay0", Pick: []int{0, 1}}}}
+		r := c11Run(t, Seed(), cs, map[string]bool{"stall-head-of-line": true})
+		st.Count("stream_lease_cases", 1)
+		if r.sig == "stall" || r.sig == "bound" || r.sentTotal < 3 {
+			p := ReplayPath(fmt.Sprintf("C04-stream-%s-%d.json", cs.Name, Seed()))
+			what := fmt.Sprintf("a StreamingPull request carried ack_ids=[A] and modify_deadline_ack_ids=[B] with 0 seconds: B was not handed out again at once (%d sends in all, expected A, B, B) %s", r.sentTotal, r.violation)
+			b, _ := json.MarshalIndent(c11Replay{Property: "C04", Sig: "stream-zero-deadline-ignored", Seed: Seed(), Case: cs, What: what}, "", " ")
+			os.WriteFile(p, b, 0o644)
+			st.Violate(Violation{What: "[stream-zero-deadline-ignored] " + what, Replay: p, FoundInput: true, Sig: "stream-zero-deadline-ignored"})
+			return
+		}
+	}
+	waitingPullDeadline(t, st)
+	if hasConcrete(st.Violations) {
+		return
+	}
 	for _, cs := range cases {
 		r := c11Run(t, Seed(), cs, map[string]bool{"stall-head-of-line": true})
 		st.Count("stream_lease_cases", 1)
@@ -842,8 +861,28 @@ func streamLease(t *testing.T, st *Stats) {
 func TestC04(t *testing.T) {
 	runCore(t, coreCfg{prop: "C04", extra: streamLease, profile: profC04, quickSeeds: 40, thoroughSeeds: 1600, nops: 100})
 }
+
+// orderedStream: ordering on the streaming path — a deadline extension sent on the stream for the first
+// message of a key is not an acknowledgement: the second message of the key stays behind it
+func orderedStream(t *testing.T, st *Stats) {
+	for _, grpc := range []bool{true, false} {
+		cs := c11Case{Name: fmt.Sprintf("ordered-extend-grpc=%v", grpc), Ordered: true, Grpc: grpc, Actions: []c11Action{{K: "fc", Msgs: 3, Byts: 10000}, {K: "publish", Pads: []int{0, 0}},
+			{K: "extend", Pick: []int{0}}, {K: "advance", D: 5 * Sec}}}
+		r := c11Run(t, Seed(), cs, map[string]bool{"stall-head-of-line": true})
+		st.Count("ordered_stream_cases", 1)
+		if r.sentTotal > 1 || r.completed > 0 {
+			p := ReplayPath(fmt.Sprintf("C05-stream-%s-%d.json", cs.Name, Seed()))
+			what := fmt.Sprintf("ordered subscription, two messages of one key on a StreamingPull stream; after a deadline extension for the first (no acknowledgement) %d messages have been sent and %d deliveries are completed: the second message was delivered while the first is outstanding", r.sentTotal, r.completed)
+			b, _ := json.MarshalIndent(c11Replay{Property: "C05", Sig: "stream-overtake", Seed: Seed(), Case: cs, What: what}, "", " ")
+			os.WriteFile(p, b, 0o644)
+			st.Violate(Violation{What: "[stream-overtake] " + what, Replay: p, FoundInput: true, Sig: "stream-overtake"})
+			return
+		}
+	}
+}
+
 func TestC05(t *testing.T) {
-	runCore(t, coreCfg{prop: "C05", profile: profC05, quickSeeds: 40, thoroughSeeds: 1600, nops: 100, drain: true})
+	runCore(t, coreCfg{prop: "C05", extra: orderedStream, profile: profC05, quickSeeds: 40, thoroughSeeds: 1600, nops: 100, drain: true})
 }
 func TestC06(t *testing.T) {
 	runCore(t, coreCfg{prop: "C06", profile: profC06, quickSeeds: 40, thoroughSeeds: 1600, nops: 100, drain: true})
